@@ -101,6 +101,19 @@ def summary(fn):
                     if nm and not p_.get("mut"):  # a mutable local is state, not a name for a value
                         env = dict(env)
                         env[nm] = (s["init"], st["post"])
+                    elif p_.get("k") == "PStruct":
+                        # `let T { a, b: c } = v;` names v.a and v.b
+                        env = dict(env)
+                        for f in p_.get("fields", []):
+                            b = A.binding_name(f["pat"])
+                            if b and not f["pat"].get("mut"):
+                                env[b] = ({"k": "Field", "e": s["init"], "member": f["name"]}, st["post"])
+                    elif p_.get("k") == "PTuple" and A.strip(s["init"]).get("k") == "Tuple":
+                        env = dict(env)
+                        for pe, ve in zip(p_["elems"], A.strip(s["init"])["elems"]):
+                            b = A.binding_name(pe)
+                            if b and not pe.get("mut"):
+                                env[b] = (ve, st["post"])
                 continue
             e = A.strip(A.stmt_expr(s) or {})
             c0 = canon(e["cond"], env, st["post"]) if e.get("k") == "If" else None
